@@ -448,6 +448,8 @@ OWN_SEEDS = [
     "unsigned char a; void main() { csleep(-2); csleep(11); csleep(100); csleep(65536); a = 1; }",
     "unsigned char a; void main() { if (a) { } else { } { } ; ; }",
     "void main() { X = 1; }\n",
+    "char a; void main() { do { switch (X) { case 1: if (Y) continue; a = 2; } X++; } while (X != 9); }",
+    "char a; void main() { do { if (Y) continue; X++; } while (X != 9); do { switch (X) { case 1: if (Y) break; default: if (a) continue; a = 2; } X++; } while (X); }",
     "unsigned char a; void main() { a = 1; " + "a++; " * 48 + 'asm("; \u00e9\u00e9\u00e9\u00e9\u00e9\u00e9\u00e9\u00e9 end", 0); a--; }\n',
     "unsigned char elsex, returny; void main() { if (X) Y = 1; elsex = 2; returny = 3; do{ X--; }while(X); }\n",
 ]
@@ -545,6 +547,14 @@ def c16(tier):
     optsets = [["-O1"], ["-O0"], ["-O1", "-DA=1"], ["-O1", "--insert-code"], ["-O2", "-Wall"]]
     for i, (src, kind) in enumerate(cases):
         hc.append(dict(id=i, src=src, variants=[dict(name="v", args=optsets[i % len(optsets)] if i >= len(seeds) else ["-O1"])]))
+    # valid programs of the refinement corpus (every family of GenProg.tla): the compiler must not crash on them either
+    from . import checks_refine, vocab, render
+    gp, _ = checks_refine.sample_programs(tier, name="c16g", scale=0.5)
+    for p in gp:
+        fn = sorted(render.calls_in(p["body"]))
+        src = vocab.source(p["body"], fn)
+        cases.append((src, "corpus-" + p["fam"]))
+        hc.append(dict(id=len(hc), src=src, variants=[dict(name="v", args=["-O1"])]))
     # the seeds once more with the listing option (with and without a final newline)
     for s in seeds:
         for t in (s.rstrip("\n") + "\n", s.rstrip("\n")):
